@@ -145,10 +145,36 @@ def _run_buffer_falsy(b, order, drains):
     return None
 
 
+class _LineCollector:
+    """A legal output object (it has write()) that also has a length - and is therefore falsy while nothing was written."""
+
+    def __init__(self):
+        self.parts = []
+
+    def write(self, s):
+        self.parts.append(s)
+        return len(s)
+
+    def flush(self):
+        pass
+
+    def __len__(self):
+        return len(self.parts)
+
+    def getvalue(self):
+        return "".join(self.parts)
+
+    def seek(self, pos):
+        pass
+
+    def truncate(self, size=0):
+        self.parts = []
+
+
 def run_print_buffer(order, drains, end, blank=False):
     """drains for PrintBuffer = positions after which the text printed so far is inspected (printing is eager)."""
     from windpyutils.buffers import PrintBuffer
-    out = io.StringIO()
+    out = _LineCollector() if (len(order) + sum(order[:2])) % 3 == 1 else io.StringIO()
     comp_out = io.StringIO()
     comp = PrintBuffer(comp_out)      # a second, independent print buffer holding serial 2
     comp.print(2, "companion")
